@@ -376,7 +376,7 @@ func simConfig(sim SimCfg, b Budgets) simrt.Config {
 		Seed: sim.SchedSeed, NumCPU: sim.NumCPU, Policy: sim.Policy, PreemptP: sim.PreemptP,
 		PCTDepth: sim.PCTDepth, PCTLen: sim.PCTLen, Stalls: sim.Stalls,
 		MaxYields: b.MaxYields, MaxDecs: b.MaxDecs, MaxTime: b.MaxTime,
-		GraceYields: b.GraceYields, GraceTime: b.GraceTime, KeepLog: b.KeepLog,
+		GraceYields: b.GraceYields, GraceTime: b.GraceTime, GraceDecs: b.GraceDecs, KeepLog: b.KeepLog,
 	}
 	if sim.UseDecs {
 		c.Policy = "replay"
@@ -388,6 +388,7 @@ func simConfig(sim SimCfg, b Budgets) simrt.Config {
 type Budgets struct {
 	MaxYields, MaxDecs, MaxTime int64
 	GraceYields, GraceTime      int64
+	GraceDecs                   int64
 	KeepLog                     bool
 }
 
